@@ -20,6 +20,8 @@ func NewMemDisk(numBlocks uint64) MemDisk {
 func (d MemDisk) ReadTo(a uint64, buf Block) {
 	d.l.RLock()
 	defer d.l.RUnlock()
+	verifHook("read.enter", a)
+	defer verifHook("read.leave", a)
 	if a >= uint64(len(d.blocks)) {
 		panic(fmt.Errorf("out-of-bounds read at %v", a))
 	}
@@ -38,6 +40,8 @@ func (d MemDisk) Write(a uint64, v Block) {
 	}
 	d.l.Lock()
 	defer d.l.Unlock()
+	verifHook("write.enter", a)
+	defer verifHook("write.leave", a)
 	if a >= uint64(len(d.blocks)) {
 		panic(fmt.Errorf("out-of-bounds write at %v", a))
 	}
